@@ -80,11 +80,16 @@ bool Json::Private::readToken()
         case '\0':
           return syntaxError(pos, "Unexpected end of file"), false;
         case '\r':
+          value.append('\r');
           if(*(++pos.pos) == '\n')
+          {
+            value.append('\n');
             ++pos.pos;
+          }
           ++pos.line;
           continue;
         case '\n':
+          value.append('\n');
           ++pos.line;
           ++pos.pos;
           continue;
@@ -377,7 +382,7 @@ void Json::Private::appendEscapedString(const String& str, String& result)
   result += '"';
   for(const char* start = str, * p = start;;)
   {
-    const char* e = String::findOneOf(p, "\"\\");
+    const char* e = String::findOneOf(p, "\"\\\x01\x02\x03\x04\x05\x06\x07\x08\x09\x0a\x0b\x0c\x0d\x0e\x0f\x10\x11\x12\x13\x14\x15\x16\x17\x18\x19\x1a\x1b\x1c\x1d\x1e\x1f");
     if(!e)
     {
       result.append(p, strLen - (p - start));
@@ -392,6 +397,26 @@ void Json::Private::appendEscapedString(const String& str, String& result)
       break;
     case '\\':
       result += "\\\\";
+      break;
+    case '\b':
+      result += "\\b";
+      break;
+    case '\f':
+      result += "\\f";
+      break;
+    case '\n':
+      result += "\\n";
+      break;
+    case '\r':
+      result += "\\r";
+      break;
+    case '\t':
+      result += "\\t";
+      break;
+    default: // other control characters
+      result += "\\u00";
+      result += "0123456789abcdef"[(*e >> 4) & 0xf];
+      result += "0123456789abcdef"[*e & 0xf];
       break;
     }
     p = e + 1;
